@@ -50,12 +50,12 @@ func alphabet() []PSpec {
 		gs(cidV0, true, false),
 		gs(cidCommP, false, true),
 		gs(cidIdent3, true, true),
-		unk(0x12, nil),                    // below, one-byte code, empty payload
-		unk(0x0302, []byte("hello")),      // below (the code the repository's test uses)
-		unk(0x0905, seqBytes(127, 9)),     // between bitswap and graphsync, longest one-byte size
-		unk(0x0915, seqBytes(128, 0x40)),  // between graphsync and gateway, shortest two-byte size
-		unk(0x0921, seqBytes(40, 0x80)),   // just above the gateway
-		unk(1<<62+5, []byte{0xff}),        // nine-byte code
+		unk(0x12, nil),                   // below, one-byte code, empty payload
+		unk(0x0302, []byte("hello")),     // below (the code the repository's test uses)
+		unk(0x0905, seqBytes(127, 9)),    // between bitswap and graphsync, longest one-byte size
+		unk(0x0915, seqBytes(128, 0x40)), // between graphsync and gateway, shortest two-byte size
+		unk(0x0921, seqBytes(40, 0x80)),  // just above the gateway
+		unk(1<<62+5, []byte{0xff}),       // nine-byte code
 	}
 }
 
